@@ -139,6 +139,17 @@ theorem ceemd_cols_le_cap (Nx : List Sig → Sig → Sig) (thr : Rat) (x : Sig) 
       rw [← ht]; simp
     · exact ceemdLoop_le_cap Nx thr x k fuel [Nx [] x] (by simp; omega)
 
+/-- complete_ensemble_sift capped at ONE component returns exactly one — the plain ensemble step on the input itself
+    (mean of the members' first IMFs of input ± noise); the loop is never entered, whatever the ensemble step, the
+    threshold, the input and the fuel; the run ends "by the cap".  With cap 2 the second (and last) column is the
+    ensemble step on the residual `x − first column`. -/
+theorem ceemd_cap_one (Nx : List Sig → Sig → Sig) (thr : Rat) (x : Sig) (fuel : Nat) :
+    ceemd Nx thr (some 1) x fuel = ([Nx [] x], .done false true false) ∧
+    (ceemd Nx thr (some 2) x (fuel + 1)).1
+      = [Nx [] x, Nx [Nx [] x] (Sig.sub x (Sig.vsum x.length [Nx [] x]))] := by
+  refine ⟨by simp [ceemd], ?_⟩
+  simp [ceemd, ceemdLoop]
+
 /-- every complete-ensemble component is a [samples]-long column when the ensemble step (mean of first IMFs of
     residual ± noise) returns [samples]-long columns -/
 theorem ceemd_col_lengths (Nx : List Sig → Sig → Sig) (thr : Rat) (cap : Option Nat) (x : Sig) (fuel : Nat)
